@@ -122,7 +122,11 @@ fn drive(seed: u64, zst_first: bool, never_alloc: bool, steps: usize) -> Vec<(u8
                 }
             }
         }
-        sum = sum.wrapping_add(e1 as u64 + e2 as u64);
+        // resetting (and iterating) an arena that still owns nothing must not touch shared state
+        b.reset();
+        let n0: usize = b.iter_allocated_chunks().count();
+        b.reset();
+        sum = sum.wrapping_add(e1 as u64 + e2 as u64 + n0 as u64);
         trace.push((0, b.chunk_capacity(), b.allocated_bytes(), sum));
     }
     if never_alloc {
